@@ -130,6 +130,10 @@ def gen(rng, seed):
                {'proc_ms': rng.choice([[0], [80]])})
     p.require_sync_consumers()
     for n in p.nodes:
+        if n['role'] != 'source' and rng.random() < 0.15:
+            n['config']['sources_low_latency'] = True      # consumer that never prefetches: nothing in the property depends on the prefetch
+            feats.add('low-latency-consumer')
+    for n in p.nodes:
         n['start_ms'] = rng.choice([0, 0, rng.randint(0, 300), rng.randint(0, 3000)])
         if n['start_ms'] > 500:
             feats.add('late-starter')
